@@ -212,12 +212,14 @@ func genUserCmd(t *rapid.T, m *model.Model) []string {
 			{"MGET", k("k1"), k("k2")}, {"DEL", k("k1"), k("k2")}, {"MSET", k("k1"), "v1", k("k2"), "v2"}, {"RENAME", k("k1"), k("k2")},
 			{"SUNIONSTORE", k("k1"), k("k2"), k("k3")}, {"SINTERSTORE", k("k1"), k("k2")}, {"LMOVE", k("k1"), k("k2"), "LEFT", "RIGHT"}, {"SMOVE", k("k1"), k("k2"), "m1"},
 			{"ZUNIONSTORE", k("k1"), k("k2"), k("k3")}, {"SUNION", k("k1"), k("k2")}, {"SDIFF", k("k1"), k("k2")}, {"ZUNION", k("k1"), k("k2")}, {"TOUCH", k("k1"), k("k2")},
+			{"ZUNION", k("k1"), "WITHSCORES"}, {"ZINTER", k("k1"), k("k2"), "WITHSCORES"}, {"ZUNION", k("k1"), k("k2"), "AGGREGATE", "MAX"}, {"ZINTER", k("k1"), "WEIGHTS", "2"},
 			{"ZRANGESTORE", k("k1"), k("k2"), "-inf", "+inf"}, {"SINTERCARD", k("k1"), k("k2"), "LIMIT", "1"},
 		}).Draw(t, "multi")
 	case 4, 5, 6, 7:
 		return gen.AnyFamilyCmd(t, m, keys)
 	case 8:
-		return rapid.SampledFrom([][]string{{"PUBLISH", "ch1", "hello"}, {"PUBLISH", "ch2", "hello"}, {"PUBLISH", "x", "m"}, {"PUBSUB", "CHANNELS"}, {"PUBSUB", "NUMPAT"}}).Draw(t, "ps")
+		return rapid.SampledFrom([][]string{{"PUBLISH", "ch1", "hello"}, {"PUBLISH", "ch2", "hello"}, {"PUBLISH", "x", "m"}, {"PUBSUB", "CHANNELS"}, {"PUBSUB", "NUMPAT"},
+			{"PUBSUB", "NUMSUB", "ch1"}, {"PUBSUB", "NUMSUB", "ch2"}, {"PUBSUB", "NUMSUB", "ch1", "x"}}).Draw(t, "ps")
 	case 9:
 		return rapid.SampledFrom([][]string{{"ACL", "WHOAMI"}, {"ACL", "LIST"}, {"ACL", "USERS"}, {"ACL", "SETUSER", "evil", "on", "nopass", "allCommands"}, {"ACL", "DELUSER", "u"}, {"ACL", "GETUSER", "default"}, {"ACL", "CAT"}}).Draw(t, "aclcmd")
 	case 10:
@@ -390,7 +392,10 @@ func runCase(t *rapid.T, replayRules []string, replaySteps []step) {
 		}
 		comm := commOf(st.Cmd)
 		acc := acl.KeysOf(st.Cmd)
-		if strings.HasPrefix(comm, "pubsub|") && len(st.Cmd) > 2 {
+		if comm == "pubsub|numsub" {
+			// the channels PUBSUB NUMSUB names are channels the command names
+			acc = acl.Access{Known: true, Channels: append([]string{}, st.Cmd[2:]...)}
+		} else if strings.HasPrefix(comm, "pubsub|") && len(st.Cmd) > 2 {
 			acc = acl.Access{}
 		}
 		conn, authed := w.user, w.authed && !userGone
